@@ -167,7 +167,7 @@ func (g *Gen) buildTable(o tableOpts) string {
 		}
 		g.do("addheaders " + t + " " + joinC(ids))
 	case 4: // empty header
-		g.do("addheaders " + t + " -")
+		g.do("addheaders " + t + " []")
 	}
 	nrows := r.n(o.maxRows + 1)
 	for i := 0; i < nrows; i++ {
